@@ -445,7 +445,7 @@ def run_fs(ctx, laws, keep, owns, profile=None, twins=False, post=None, lz=False
     # 3. impl -> spec
     rec = []
     if profile:
-        runs, length = ctx.pick((60, 100), (600, 100))
+        runs, length = ctx.pick((48, 100), (600, 100))
         rec = record(ctx, binary, runs, length, profile, "rec")
         bad = validate(ctx, rec, "rec")
         report(ctx, rec, bad, owns, "impl->spec")
